@@ -3,7 +3,7 @@ xdis/cross_dis.py (C02, C04)."""
 from pyvc.engine import Loop
 from pyvc.types import Int, Bytes, IntSetList, ForAll
 from pyvc.sym import And, Or, Not, Implies, If, Len, SSet
-from contracts.common import Registry, SetOf, table_configs, REF, ctab, EXT, In, At
+from contracts.common import Registry, SetOf, table_configs, REF, ctab, EXT, In, At, gen_code
 from spec import wordcode as W, jumps as J
 
 R = Registry()
@@ -24,7 +24,7 @@ contract(
     "xdis.wordcode:unpack_opargs_wordcode",
     kind="generator",
     configs=table_configs(lambda m: (3, 6) <= m.version_tuple < (3, 10)),
-    params={"code": Bytes(alphabet=EVEN, maxlen=8, even=True)},
+    params={"code": Bytes(alphabet=EVEN, maxlen=8, even=True)}, examples={"code": gen_code},
     requires=lambda code: And(Len(code) % 2 == 0, Len(code) >= 2),
     yield_count=lambda code: Len(code) // 2,
     yield_at=lambda code, opc, _k: w_yield(code, opc, _k, lambda k: W.w_ext(code, k, opc.HAVE_ARGUMENT, EXT(opc))),
@@ -40,7 +40,7 @@ contract(
     "xdis.cross_dis:unpack_opargs_bytecode_310",
     kind="generator",
     configs=table_configs(lambda m: m.version_tuple[:2] == (3, 10)),
-    params={"code": Bytes(alphabet=EVEN, maxlen=8, even=True)},
+    params={"code": Bytes(alphabet=EVEN, maxlen=8, even=True)}, examples={"code": gen_code},
     requires=lambda code: And(Len(code) % 2 == 0, Len(code) >= 2),
     yield_count=lambda code: Len(code) // 2,
     yield_at=lambda code, opc, _k: w_yield(code, opc, _k, lambda k: W.w_ext(code, k, opc.HAVE_ARGUMENT, EXT(opc))),
@@ -79,7 +79,7 @@ contract(
     "xdis.cross_dis:unpack_opargs_bytecode_310",
     kind="generator",
     configs=table_configs(lambda m: m.version_tuple[:2] >= (3, 11)),
-    params={"code": Bytes(alphabet=EVEN, maxlen=8, even=True)},
+    params={"code": Bytes(alphabet=EVEN, maxlen=8, even=True)}, examples={"code": gen_code},
     requires=lambda code, opc: wf311(code, opc),
     yield_count=lambda code: Len(code) // 2,
     yield_at=lambda code, opc, _k: w_yield(code, opc, _k, lambda k: W.c_ext(code, k, REF(opc).hasarg, EXT(opc), ctab(opc))),
@@ -99,7 +99,7 @@ contract(
     "xdis.cross_dis:unpack_opargs_bytecode",
     kind="generator",
     configs=table_configs(lambda m: m.version_tuple < (3, 6)),
-    params={"code": Bytes(alphabet=EVEN, maxlen=9)},
+    params={"code": Bytes(alphabet=EVEN, maxlen=9)}, examples={"code": gen_code},
     requires=lambda code, opc: And(Len(code) >= 1, W.b_off(code, W.b_cnt(code, 0, opc.HAVE_ARGUMENT), opc.HAVE_ARGUMENT) == Len(code)),
     yield_count=lambda code, opc: W.b_cnt(code, 0, opc.HAVE_ARGUMENT),
     yield_at=lambda code, opc, _k: (
@@ -115,4 +115,69 @@ contract(
                        extended_arg >= 0, extended_arg % 65536 == 0,
                        extended_arg == W.b_ext(code, _ny, opc.HAVE_ARGUMENT, EXT(opc))),
                    decreases=lambda n, offset: n - offset)},
+)
+
+
+# ================================================================================================
+# C04: label finders.  Result abstracted to the *set* of its elements (the code only appends and tests
+# membership, both homomorphic w.r.t. that abstraction); postcondition: exactly the set of jump targets
+# CPython's dis.findlabels computes (spec/jumps.py), for every code string, per opcode table.
+def J_sets(opc):
+    r = REF(opc)
+    return r.hasjrel, r.hasjabs, r.backward, ctab(opc), r.caches_in_targets
+
+
+def wlab_spec(code, opc, k):
+    jrel, jabs, backward, ct, cit = J_sets(opc)
+    scale = 2 if opc.version_tuple >= (3, 10) else 1
+    return J.wlab(code, k, opc.HAVE_ARGUMENT, EXT(opc), scale, jrel, jabs, backward, ct, cit)
+
+
+def clab_spec(code, opc, k):
+    jrel, jabs, backward, ct, cit = J_sets(opc)
+    return J.clab(code, k, REF(opc).hasarg, EXT(opc), jrel, jabs, backward, ct, cit)
+
+
+def lab_spec(code, opc, k):
+    return clab_spec(code, opc, k) if opc.version_tuple >= (3, 11) else wlab_spec(code, opc, k)
+
+
+def native_set(v):
+    return frozenset(v)
+
+
+for _name, _target, _pred, _req in (
+        ("xdis.wordcode:findlabels", "xdis.wordcode:findlabels", lambda m: (3, 6) <= m.version_tuple < (3, 11),
+         lambda code, opc: And(Len(code) % 2 == 0, Len(code) >= 2)),
+        ("xdis.wordcode:findlabels/3.11+", "xdis.wordcode:findlabels", lambda m: m.version_tuple >= (3, 11), wf311),
+        ("xdis.cross_dis:findlabels_310", "xdis.cross_dis:findlabels_310", lambda m: m.version_tuple[:2] == (3, 10),
+         lambda code, opc: And(Len(code) % 2 == 0, Len(code) >= 2)),
+        ("xdis.cross_dis:findlabels_310/3.11+", "xdis.cross_dis:findlabels_310", lambda m: m.version_tuple >= (3, 11), wf311)):
+    _loopvar = "offsets" if "wordcode" in _target else "labels"
+    contract(
+        _target, name=_name,
+        configs=table_configs(_pred),
+        params={"code": Bytes(alphabet=EVEN, maxlen=8, even=True)}, examples={"code": gen_code},
+        requires=_req,
+        ensures=lambda code, opc, result: SetOf(result) == lab_spec(code, opc, Len(code) // 2),
+        native_post=lambda code, opc, result: [("label-set", frozenset(result) == lab_spec(code, opc, len(code) // 2)),
+                                               ("no-duplicates", len(set(result)) == len(result))],
+        loops={0: Loop(None,
+                       havoc={_loopvar: IntSetList()},
+                       invariant=(lambda code, opc, offsets, _k: SetOf(offsets) == lab_spec(code, opc, _k)) if _loopvar == "offsets"
+                       else (lambda code, opc, labels, _k: SetOf(labels) == lab_spec(code, opc, _k)))},
+    )
+
+
+# < 3.6
+contract(
+    "xdis.cross_dis:findlabels_pre_310",
+    configs=table_configs(lambda m: m.version_tuple < (3, 6)),
+    params={"code": Bytes(alphabet=EVEN, maxlen=9)}, examples={"code": gen_code},
+    requires=lambda code, opc: And(Len(code) >= 1, W.b_off(code, W.b_cnt(code, 0, opc.HAVE_ARGUMENT), opc.HAVE_ARGUMENT) == Len(code)),
+    ensures=lambda code, opc, result: SetOf(result) == J.blab(code, W.b_cnt(code, 0, opc.HAVE_ARGUMENT), opc.HAVE_ARGUMENT, EXT(opc), REF(opc).hasjrel, REF(opc).hasjabs),
+    native_post=lambda code, opc, result: [("label-set", frozenset(result) == J.blab(code, W.b_cnt(code, 0, opc.HAVE_ARGUMENT), opc.HAVE_ARGUMENT, EXT(opc), REF(opc).hasjrel, REF(opc).hasjabs))],
+    loops={0: Loop("for offset, op, arg in unpack_opargs_bytecode(code, opc)",
+                   havoc={"offsets": IntSetList()},
+                   invariant=lambda code, opc, offsets, _k: SetOf(offsets) == J.blab(code, _k, opc.HAVE_ARGUMENT, EXT(opc), REF(opc).hasjrel, REF(opc).hasjabs))},
 )
